@@ -126,6 +126,16 @@ def call_real(discipline, text, gender='all', prec=None):
         return ('exc', False, type(e).__name__)
 
 
+def witness(discipline, text, gender, prec, what):
+    """facts about a failing call that known-finding predicates may use"""
+    o = call_real(discipline, text, gender, prec)
+    try:
+        dist = utils().get_distance(discipline)
+    except Exception:
+        dist = None
+    return dict(what=what, disc=discipline, text=text, prec=prec, gender=gender, dist=dist, returned=o[1] if o[0] == 'ret' else None)
+
+
 def contract(discipline, text, gender='all', prec=None):
     o = call_real(discipline, text, gender, prec)
     w = result_ok(discipline, gender, prec, text, o)
@@ -257,7 +267,7 @@ def unit_sym(args):
         if r2 is REFUSED:
             if not (disc.lower() == 'xc' and isinstance(r, str) and r == ''):
                 c.oblige('%s/validating-the-result-again-is-accepted' % name, False, 'post', meta=dict(result=repr(r)[:80]))
-        elif prec is None:       # with a precision the text goes through two more float<->text conversions: left to the stand-in
+        else:
             c.oblige('%s/validating-the-result-again-returns-it-unchanged' % name, zbool(sym_eq(r, r2)), 'post', meta=dict(result=repr(r)[:80]))
         if kind == 'multi':
             cells = list(S.cells_of(r))
@@ -447,6 +457,13 @@ def main(tier, seed):
         if tier != 'quick':
             for shape in shapes[::5]:
                 J.append(('sym', (disc, shape, 2, 'all')))
+            for shape in shapes[2::7]:
+                J.append(('sym', (disc, shape, 0, 'all')))
+                J.append(('sym', (disc, shape, 3, 'all')))
+        elif kind_of(disc) == 'timed' and disc in ('100', '800', 'MAR'):
+            # with a precision option the text goes through format_seconds_as_time (callee contract): cheap shapes only
+            for shape in [((2,), ('.', 2), '', '.'), ((1, 2), None, ':', '.'), ((1, 2, 2), None, ':', '.')]:
+                J.append(('sym', (disc, shape, 0, 'all')))
     n_st = 3000 if tier == 'quick' else 60000
     J += [('standin', (seed * 16 + i, n_st // 16)) for i in range(16)]
     J += [('boundary', (i, 8)) for i in range(8)]
@@ -458,7 +475,11 @@ def main(tier, seed):
         if isinstance(res, tuple):
             cnt += res[1]
             for b in res[2]:
-                classes.setdefault(re.sub(r"'[^']*'|\d+(\.\d+)?", '#', b[4]), []).append(b)
+                e = run.match_known('standin/contract-on-the-real-function', witness(*b))
+                if e:
+                    run.known_finding(e)
+                else:
+                    classes.setdefault(re.sub(r"'[^']*'|\d+(\.\d+)?", '#', b[4]), []).append(b)
             continue
         if '_crash' in res:
             U.absorb(run, res)
@@ -470,7 +491,7 @@ def main(tier, seed):
             rep, bad = conc(r)
             rep = dict(rep, model=r.get('model'), unit=_res['unit'], solver='z3 sat', meta=r.get('meta'))
             if bad:
-                e = run.match_known(r['name'], dict(rep, what=str(rep.get('observed')), **r.get('ctx', {})))
+                e = run.match_known(r['name'], witness(*rep['input'], str(rep.get('observed'))))
                 if e:
                     run.known_finding(e)
                 else:
@@ -480,11 +501,6 @@ def main(tier, seed):
         U.absorb(run, res, on_refuted)
     for k, v in sorted(classes.items(), key=lambda kv: -len(kv[1]))[:6]:
         disc, t, gender, prec, w = v[0]
-        e = run.match_known('standin/contract-on-the-real-function', dict(what=w, disc=disc, text=t, prec=prec, gender=gender,
-                                                                          all_prec0=all(x[3] == 0 for x in v)))
-        if e:
-            run.known_finding(e, len(v))
-            continue
         run.violation('standin/contract-on-the-real-function', dict(call='check_performance_for_discipline(%r, %r, gender=%r, prec=%r)' % (disc, t, gender, prec),
                                                                      observed=w, input=[disc, t, gender, prec], more=[list(x[:2]) for x in v[:6]]), True)
     run.bounded.append(dict(what='run-time contract on the real function: codes from the whole accepted language and loose names x a grammar of plausible and '
